@@ -2891,7 +2891,10 @@ impl<E: Effect> Executor<E> {
                         .all(|(a, b)| self.values_equal(a, b))
             }
             (Value::Builtin(a), Value::Builtin(b)) => a == b,
-            (Value::Process(a, func_a), Value::Process(b, func_b)) => a == b && func_a == func_b,
+            // Two handles denote the same process whatever function they were typed with: `&.`
+            // carries the function of the frame it was evaluated under (another one after a tail
+            // call, or on a later REPL line), the spawner's handle the spawned function.
+            (Value::Process(a, _), Value::Process(b, _)) => a == b,
             (Value::Reference(a), Value::Reference(b)) => a == b,
             _ => false,
         }
